@@ -159,6 +159,73 @@ def sparse_observation_case(out: Outcome, rng, cls: str, runners: list) -> None:
     out.case({"class": cls, "sparse_observation": True, "n": len(xs), "looks": len(look), "reset": reset_at is not None})
 
 
+def interpreter_variants(out: Outcome, rng, classes: list) -> None:
+    """the outputs are a function of the configuration and the values - not of how the interpreter was started: every detector class on a stream with a
+    reset, in fresh interpreters started normally and with `-O` (assert statements compiled away), each with its own hash salt, must give the in-process trace"""
+    import json
+    import subprocess
+    import sys
+    from common import VERIF
+    reqs, here = [], []
+    for cls in classes:
+        p = gen.rand_params(rng, cls)
+        xs = gen.stream_for(rng, cls, rng.randint(40, 120))
+        xs.insert(rng.randint(10, len(xs) - 5), "r")
+        r = dets.Runner("a", cls, p)
+        if r.det is None:
+            continue
+        for x in xs:
+            if x == "r":
+                r.reset()
+            else:
+                r.update(x)
+        reqs.append({"class": cls, "params": p, "stream": xs, "seed": None})
+        here.append(r.obs)
+    for flags in ([], ["-O"]):
+        r = subprocess.run([sys.executable] + flags + [str(VERIF / "harness" / "alone.py")], input=json.dumps({"batch": reqs}), capture_output=True, text=True, timeout=900)
+        if r.returncode != 0:
+            out.violation(f"running the detectors in a fresh interpreter started with {flags or 'no flags'} failed: {r.stderr[-300:]}", {"interpreter_flags": flags, "requests": reqs})
+            continue
+        for q, there, h in zip(reqs, json.loads(r.stdout), here):
+            if there != h:
+                k = next((i for i, (u, v) in enumerate(zip(there, h)) if u != v), min(len(there), len(h)))
+                out.violation(f"{q['class']}: in a fresh interpreter started with {flags or 'no flags'} the output after operation {k} is {there[k] if k < len(there) else None}, "
+                              f"in this process {h[k] if k < len(h) else None}", {**q, "interpreter_flags": flags})
+    out.case({"interpreter_variants": ["", "-O"], "classes": classes})
+
+
+def user_model_class():
+    """a model class written by a user: derives from the abstract base directly (same conjugate Gaussian arithmetic, own attribute names)"""
+    from scipy.stats import norm
+    from frouros.detectors.concept_drift.streaming.change_detection.bocd import BaseBOCDModel
+
+    class UserModel(BaseBOCDModel):
+        def __init__(self, prior_mean=0.0, prior_var=1.0, data_var=1.0):
+            super().__init__()
+            self.mu = np.array([prior_mean])
+            self.prec = np.array([1 / prior_var])
+            self.dv = data_var
+
+        def log_pred_prob(self, idx, value):
+            return norm(self.mu[:idx], np.sqrt(1 / self.prec[:idx] + self.dv)).logpdf(value)
+
+        def update(self, value, **kwargs):
+            new_prec = self.prec + 1 / self.dv
+            new_mu = (self.mu * self.prec + value / self.dv) / new_prec
+            self.prec = np.append([self.prec[0]], new_prec)
+            self.mu = np.append([self.mu[0]], new_mu)
+
+        @property
+        def mean_params(self):
+            return self.mu
+
+        @property
+        def var_params(self):
+            return 1 / self.prec + self.dv
+
+    return UserModel
+
+
 def heap_scenarios(out: Outcome, rng, n_random: int) -> None:
     """object-graph correspondence: the heap model (`FrourosModel/Heap.lean`, the model the isolation / purity / transparency theorems of
     `Props/C16b.lean` are about) and the real objects are driven through the same scenario of constructor / update / reset / fit / compare
@@ -207,7 +274,7 @@ def heap_scenarios(out: Outcome, rng, n_random: int) -> None:
 
     scenarios = fixed + [random_scenario() for _ in range(n_random)]
     lines, expect = [], []
-    for sc in scenarios:
+    for sc_index, sc in enumerate(scenarios):
         env, order, bocd = {}, [], False
         raised = False
         try:
@@ -215,7 +282,9 @@ def heap_scenarios(out: Outcome, rng, n_random: int) -> None:
                 t = w.split(":")
                 if t[0] == "cfg":
                     if t[2] == "m":
-                        env[t[1]] = cd.BOCDConfig(model=GaussianUnknownMean(prior_mean=0.0, prior_var=1.0, data_var=1.0))
+                        # every other scenario uses a USER-DEFINED model class (a subclass): the copy made by the constructor and by reset() must not depend on the class
+                        mcls = GaussianUnknownMean if (sc_index % 2 == 0) else user_model_class()
+                        env[t[1]] = cd.BOCDConfig(model=mcls(prior_mean=0.0, prior_var=1.0, data_var=1.0))
                         env[t[1] + ".model"] = env[t[1]].model
                     else:
                         env[t[1]] = cd.DDMConfig()
@@ -313,6 +382,7 @@ def run(out: Outcome) -> None:
     for c in dets.CLASSES:
         for _ in range(3 if thorough else 1):
             sparse_observation_case(out, rng, c, runners)
+    interpreter_variants(out, rng, [c for c in dets.CLASSES if c != "KSWIN"])
     heap_scenarios(out, rng, 60 if thorough else 20)
     before = len(out.mismatches)
     corr.compare_batch(out, runners, rtol=1e-8)
